@@ -6,7 +6,7 @@ from vlib import common as C
 
 NAMES = {10: 'Open', 11: 'OpenPoll', 12: 'Accept', 13: 'Write', 14: 'WriteV', 15: 'Read', 16: 'Shutdown', 17: 'DropStream',
          18: 'Deliver', 19: 'SendDgram', 20: 'GetDgram', 21: 'BindReq', 22: 'BindPoll', 23: 'NextBind', 24: 'BindReply',
-         25: 'BindDrop', 26: 'DropMux', 27: 'Inject', 28: 'End'}
+         25: 'BindDrop', 26: 'DropMux', 27: 'Inject', 28: 'End', 30: 'BridgeStart', 31: 'BridgePoll', 32: 'LocalFeed'}
 
 
 def parse_case(t):
